@@ -314,3 +314,11 @@ Section MacroFrame.
       rc_get_var c1 x = rc_get_var c2 x /\ c12_owns c1 x = c12_owns c2 x /\
       (assoc_bytes S x = None -> rc_get_macro c1 x = rc_get_macro c2 x).
 End MacroFrame.
+
+(* the same, decided: every macro tag of every registered template *)
+Definition c12_env_okb (N : list bytes) (env : ev_env) : bool :=
+  forallb (fun t => forallb (fun m => c12_params_ok N (fst (snd m)) && c12_nsok N (snd (snd m))) (ts_macros (snd t))) (e_tpls env).
+
+(* the names of N that S does not define *)
+Definition c12_minus (N : list bytes) (S : list (bytes * (bytes * bytes))) : list bytes :=
+  filter (fun x => match assoc_bytes S x with None => true | Some _ => false end) N.
